@@ -21,6 +21,7 @@ mod c09;
 mod c11;
 mod c14;
 mod c17;
+mod c18;
 mod c19;
 mod c20;
 mod jsmini;
@@ -235,6 +236,8 @@ pub fn eval(out: &mut Out, req: &str) -> String {
         c15::eval(out, op, &args)
     } else if op.starts_with("bind.") || op.starts_with("mo.") || op.starts_with("ts.") {
         c19::eval(out, op, &args)
+    } else if op.starts_with("rs.") {
+        c18::eval(out, op, &args)
     } else if op.starts_with("rnd.") {
         c20::eval(out, op, &args)
     } else if op.starts_with("js.") {
@@ -317,6 +320,7 @@ fn main() {
         "C13" => c11::run_c13(&mut ctx),
         "C14" => c14::run(&mut ctx),
         "C17" => c17::run(&mut ctx),
+        "C18" => c18::run(&mut ctx),
         "C19" => c19::run(&mut ctx),
         "C20" => c20::run(&mut ctx),
         "C15" => c15::run(&mut ctx),
